@@ -292,5 +292,179 @@ theorem argValues_local (S : Str → Prop) (cx : EvalCtx) (e? : Option Entry) :
             exact ⟨rfl, rfl, hag2⟩
 end
 
+/-! ### frame: an evaluation writes only the keys of the expression evaluated -/
+
+def Frame (K : Str → Prop) (m : Memo) (r : EM (Variant × Memo)) : Prop :=
+  ∀ v m1, r = .ok (v, m1) → ∀ k, ¬ K k → m1.get? k = m.get? k
+
+def FrameL (K : Str → Prop) (m : Memo) (r : EM (List Str × Memo × Bool)) : Prop :=
+  ∀ v m1 b, r = .ok (v, m1, b) → ∀ k, ¬ K k → m1.get? k = m.get? k
+
+theorem frame_bind (K : Str → Prop) (m : Memo) (a : EM (Variant × Memo)) (k : Variant → Memo → EM (Variant × Memo)) :
+    Frame K m a → (∀ v m1, Frame K m1 (k v m1)) →
+    Frame K m (match a with | .error er => .error er | .ok (v, m1) => k v m1) := by
+  intro ha hk v' m' h
+  cases a with
+  | error er => simp at h
+  | ok p =>
+    obtain ⟨v, m1⟩ := p
+    intro k' hk'
+    rw [hk v m1 v' m' h k' hk', ha v m1 rfl k' hk']
+
+theorem frameL_bind (K : Str → Prop) (m : Memo) (a : EM (List Str × Memo × Bool)) (k : List Str → Memo → Bool → EM (Variant × Memo)) :
+    FrameL K m a → (∀ v m1 b, Frame K m1 (k v m1 b)) →
+    Frame K m (match a with | .error er => .error er | .ok (v, m1, b) => k v m1 b) := by
+  intro ha hk v' m' h
+  cases a with
+  | error er => simp at h
+  | ok p =>
+    obtain ⟨v, m1, b⟩ := p
+    intro k' hk'
+    rw [hk v m1 b v' m' h k' hk', ha v m1 b rfl k' hk']
+
+theorem frame_ok_insert (K : Str → Prop) (m : Memo) (key : Str) (hkey : K key) (v : Variant) (t : Str) :
+    Frame K m (.ok (v, m.insert key t)) := by
+  intro v' m' h k hk
+  simp only [Except.ok.injEq, Prod.mk.injEq] at h
+  rw [← h.2, get_insert]
+  have : k ≠ key := fun e => hk (e ▸ hkey)
+  simp [this]
+
+theorem frame_ok_same (K : Str → Prop) (m : Memo) (v : Variant) : Frame K m (.ok (v, m)) := by
+  intro v' m' h k _
+  simp only [Except.ok.injEq, Prod.mk.injEq] at h
+  rw [← h.2]
+
+theorem frame_error (K : Str → Prop) (m : Memo) (er : EvalErr) : Frame K m (.error er) := by
+  intro v' m' h; simp at h
+
+theorem frame_withMemo (K : Str → Prop) (m : Memo) (key : Str) (c : Unit → EM (Variant × Memo)) (hc : Frame K m (c ())) :
+    Frame K m (withMemo m key c) := by
+  unfold withMemo
+  cases m.get? key with
+  | some v => exact frame_ok_same K m _
+  | none => exact hc
+
+theorem frame_applyFn (K : Str → Prop) (cx : EvalCtx) (e? : Option Entry) (f : Function) (key : Str) (hkey : K key)
+    (av : Variant) (avs : List Str) (exs : Bool) (m : Memo) : Frame K m (applyFn cx e? f key av avs exs m) := by
+  unfold applyFn
+  cases fnValue cx e? f av avs with
+  | error er => exact frame_error K m er
+  | ok v => exact frame_ok_insert K m key hkey _ _
+
+theorem frame_mono (K K' : Str → Prop) (m : Memo) (r : EM (Variant × Memo)) (h : ∀ k, K k → K' k) : Frame K m r → Frame K' m r := by
+  intro hf v m1 hr k hk
+  exact hf v m1 hr k (fun hk' => hk (h k hk'))
+
+mutual
+theorem columnValue_frame (K : Str → Prop) (cx : EvalCtx) (e? : Option Entry) :
+    ∀ (x : Expr) (m : Memo), (∀ k ∈ keysOf x, K k) → Frame K m (columnValue cx e? m x)
+  | .val mn v, m, _ => by
+    unfold columnValue
+    exact frame_ok_same K m _
+  | .field mn f, m, hk => by
+    unfold columnValue
+    apply frame_withMemo
+    cases e? with
+    | some e =>
+      simp only
+      cases fieldValue cx.cfg e f with
+      | ok v => exact frame_ok_insert K m _ (hk _ (by simp [keysOf])) _ _
+      | error er => exact frame_error K m er
+    | none =>
+      simp only
+      cases m.get? f.display with
+      | some v => exact frame_ok_same K m _
+      | none => exact frame_ok_same K m _
+  | .func0 mn f, m, hk => by
+    unfold columnValue
+    apply frame_withMemo
+    simp only
+    apply frame_bind K m _ (fun v m1 => .ok (negateIf mn v, m1.insert (Expr.func0 mn f).display (negateIf mn v).text))
+    · by_cases hagg : f.isAggregate = true
+      · simp only [hagg, if_true, aggValue]
+        exact frame_ok_same K m _
+      · simp only [hagg, Bool.false_eq_true, if_false]
+        exact frame_applyFn K cx e? f _ (hk _ (by simp [keysOf])) _ _ _ m
+    · intro v m1
+      exact frame_ok_insert K m1 _ (hk _ (by simp [keysOf])) _ _
+  | .func mn f l args, m, hk => by
+    unfold columnValue
+    apply frame_withMemo
+    simp only
+    apply frame_bind K m _ (fun av m1 =>
+      match (if f.isAggregate then (.ok (aggValue cx f l.display m1) : EM (Variant × Memo))
+             else match argValues cx e? m1 args with
+               | .error er => .error er
+               | .ok (avs, m2, exs) => applyFn cx e? f (Expr.func mn f l args).display av avs exs m2) with
+      | .error er => .error er
+      | .ok (v, m) => .ok (negateIf mn v, m.insert (Expr.func mn f l args).display (negateIf mn v).text))
+    · exact columnValue_frame K cx e? l m (fun k hk' => hk k (by simp [keysOf, hk']))
+    · intro av m1
+      apply frame_bind K m1 _ (fun v m => .ok (negateIf mn v, m.insert (Expr.func mn f l args).display (negateIf mn v).text))
+      · by_cases hagg : f.isAggregate = true
+        · simp only [hagg, if_true, aggValue]
+          exact frame_ok_same K m1 _
+        · simp only [hagg, Bool.false_eq_true, if_false]
+          apply frameL_bind K m1 _ (fun avs m2 exs => applyFn cx e? f (Expr.func mn f l args).display av avs exs m2)
+          · exact argValues_frame K cx e? args m1 (fun k hk' => hk k (by simp [keysOf, hk']))
+          · intro avs m2 exs
+            exact frame_applyFn K cx e? f _ (hk _ (by simp [keysOf])) _ _ _ m2
+      · intro v m2
+        exact frame_ok_insert K m2 _ (hk _ (by simp [keysOf])) _ _
+  | .arith l op r, m, hk => by
+    unfold columnValue
+    apply frame_withMemo
+    simp only
+    apply frame_bind K m _ (fun lv m1 =>
+      match columnValue cx e? m1 r with
+      | .error er => .error er
+      | .ok (rv, m2) =>
+        .ok ({ op.calc lv rv with exact := (op.calc lv rv).exact && lv.exact && rv.exact },
+             m2.insert (Expr.arith l op r).display ({ op.calc lv rv with exact := (op.calc lv rv).exact && lv.exact && rv.exact } : Variant).text))
+    · exact columnValue_frame K cx e? l m (fun k hk' => hk k (by simp [keysOf, hk']))
+    · intro lv m1
+      apply frame_bind K m1 _ (fun rv m2 =>
+        .ok ({ op.calc lv rv with exact := (op.calc lv rv).exact && lv.exact && rv.exact },
+             m2.insert (Expr.arith l op r).display ({ op.calc lv rv with exact := (op.calc lv rv).exact && lv.exact && rv.exact } : Variant).text))
+      · exact columnValue_frame K cx e? r m1 (fun k hk' => hk k (by simp [keysOf, hk']))
+      · intro rv m2
+        exact frame_ok_insert K m2 _ (hk _ (by simp [keysOf])) _ _
+  | .cmp l o r, m, hk => by
+    unfold columnValue
+    apply frame_withMemo
+    exact columnValue_frame K cx e? l m (fun k hk' => hk k (by simp [keysOf, hk']))
+  | .logic l o r, m, hk => by
+    unfold columnValue
+    apply frame_withMemo
+    exact columnValue_frame K cx e? l m (fun k hk' => hk k (by simp [keysOf, hk']))
+
+theorem argValues_frame (K : Str → Prop) (cx : EvalCtx) (e? : Option Entry) :
+    ∀ (xs : List Expr) (m : Memo), (∀ k ∈ keysOfList xs, K k) → FrameL K m (argValues cx e? m xs)
+  | [], m, _ => by
+    unfold argValues
+    intro v m1 b h k _
+    simp only [Except.ok.injEq, Prod.mk.injEq] at h
+    rw [← h.2.1]
+  | a :: as, m, hk => by
+    unfold argValues
+    have ha := columnValue_frame K cx e? a m (fun k hk' => hk k (by simp [keysOfList, hk']))
+    intro vs m2 b h k hkk
+    cases e1 : columnValue cx e? m a with
+    | error er => rw [e1] at h; simp at h
+    | ok p =>
+      obtain ⟨v, m1⟩ := p
+      rw [e1] at h
+      simp only at h
+      have hr := argValues_frame K cx e? as m1 (fun k hk' => hk k (by simp [keysOfList, hk']))
+      cases e2 : argValues cx e? m1 as with
+      | error er => rw [e2] at h; simp at h
+      | ok q =>
+        obtain ⟨vs', m2', b'⟩ := q
+        rw [e2] at h
+        simp only [Except.ok.injEq, Prod.mk.injEq] at h
+        rw [← h.2.1, hr vs' m2' b' e2 k hkk, ha v m1 e1 k hkk]
+end
+
 end MemoL
 end Fsel
